@@ -81,6 +81,8 @@ pub enum Truth {
     Command { lane: &'static str, value: String },
     Push(i32),
     Sent { node: String, lane: String, value: i32, ow: bool },
+    /// Free-form entry for harnesses that bring their own agent (see `world::set_agent_factory`).
+    Custom(String),
 }
 
 #[derive(Default)]
